@@ -23,6 +23,7 @@ REAL = Params(30, 64, 64, 30, 53, 1024)
 # floats: ("nan",) | ("inf", s) | ("fin", s, n, d)   value = s * n / 2**d, n >= 0, d >= 0, normalised
 
 NAN = ("nan",)
+EMIN = -1021     # real doubles; never reached on the scaled instance
 
 
 def norm(s, n, d):
@@ -145,7 +146,7 @@ def c_fmod(P, a, b):
 
 
 def py_style_mod(P, a, b):
-    """the adjustment both float_rem (CPython) and PyFloatBinop apply after fmod; b != 0"""
+    """CPython float_rem after fmod:  if (mod) { if ((wx < 0) != (mod < 0)) mod += wx; } else copysign(0, wx);  b != 0"""
     m = c_fmod(P, a, b)
     if m[0] == "nan":
         return m
@@ -154,6 +155,18 @@ def py_style_mod(P, a, b):
             m = ieee_add(P, m, b)
         return m
     return ("fin", b[1], 0, 0)    # copysign(0.0, b)
+
+
+def c_style_mod(P, a, b):
+    """PyFloatBinop:  result = fmod(a, b); if (result) result += ((result < 0) ^ (b < 0)) * b; else copysign(0.0, b)"""
+    m = c_fmod(P, a, b)
+    if m[0] == "nan":
+        return m                  # nan is true in C; nan + anything = nan
+    if not is_zero(m):
+        flag = (m[1] < 0) != (b[1] < 0)
+        term = ieee_mul(P, ("fin", 1, 1 if flag else 0, 0), b)
+        return ieee_add(P, m, term)
+    return ("fin", b[1], 0, 0)
 
 
 def int_to_float(P, v):
@@ -182,6 +195,8 @@ def fmt_f(f):
         return "f:nan"
     if f[0] == "inf":
         return "f:inf:" + ("+" if f[1] > 0 else "-")
+    if f[2] != 0 and bitlen(f[2]) - f[3] < EMIN:
+        return "u"                 # below the normal range: subnormals are not modelled
     return "f:fin:%s:%d:%d" % ("+" if f[1] > 0 else "-", f[2], f[3])
 
 
@@ -360,7 +375,7 @@ def select(P, op, order, ckind, cval, shift_max=None):
         if op in ("Remainder", "TrueDivide", "FloorDivide"):
             return "PyLongBinop" if (order == "ObjC" and cval != 0 and not big) else "generic"
         if op in CMP:
-            return "generic" if big else "PyLongCompare"
+            return "PyObjectCompare" if big else "PyLongCompare"
         if not big:
             return "PyLongBinop"
         return "PyNumberBinop" if op in ("Add", "Subtract", "Multiply", "Xor", "And", "Or") else "generic"
@@ -582,7 +597,7 @@ def float_binop(P, op, order, x, c):
     if op == "Remainder":
         if is_zero(b):
             return _ub("fmod0"), path
-        return fmt_f(py_style_mod(P, a, b)), path
+        return fmt_f(c_style_mod(P, a, b)), ("fb-rem-infdiv" if b[0] == "inf" else path)
     f = {"Add": ieee_add, "Subtract": ieee_sub, "TrueDivide": ieee_div}[op]
     return fmt_f(f(P, a, b)), path
 
@@ -681,6 +696,54 @@ def _nb_xfloat(P, op, t2, a, b, isint, ieee):
     return "g", "nb-reverse"
 
 
+def object_compare(P, op, t1, t2, a, b):
+    """__Pyx_PyObject_Compare[Bool]<Eq|Ne>_<t1>_<t2>  (PyObjectCompare), Eq/Ne only"""
+    eqr = (lambda e: fmt_b(e if op == "Eq" else not e))
+
+    def isfloat(v, t):
+        return True if t == "float" else v[0] == "float"
+
+    def isint(v, t):
+        return True if t == "int" else v[0] == "int"
+
+    def float_int(f, iv):
+        if _is_compact(P, iv):
+            return eqr(feq(f, int_to_float(P, iv))), "oc-fi-compact"
+        if f[0] != "fin":
+            return eqr(False), "oc-fi-nonfinite"
+        if f[1] > 0 or f[2] == 0:                    # float >= 0.
+            if iv < 0:
+                return eqr(False), "oc-fi-sign"
+            if _lt_pow2(f, P.SHIFT):
+                return eqr(False), "oc-fi-mag"
+        else:
+            if iv > 0:
+                return eqr(False), "oc-fi-sign"
+            if _lt_pow2(f, P.SHIFT):                 # float > -2^SHIFT
+                return eqr(False), "oc-fi-mag"
+        return "g", "oc-richcmp"
+    if t1 in ("object", "float") and isfloat(a, t1):
+        if t2 in ("object", "float") and isfloat(b, t2):
+            return eqr(feq(a[1], b[1])), "oc-ff"
+        if t2 in ("object", "int") and isint(b, t2):
+            return float_int(a[1], b[1])
+        return "g", "oc-richcmp"
+    if t1 in ("object", "int") and isint(a, t1):
+        if t2 in ("object", "int") and isint(b, t2):
+            av, bv = a[1], b[1]
+            same_tag = ndigits(P, av) == ndigits(P, bv) and ((av > 0) - (av < 0)) == ((bv > 0) - (bv < 0))
+            base = 2 ** P.SHIFT
+            if same_tag:
+                n = ndigits(P, av)
+                eq = all((abs(av) // base ** i) % base == (abs(bv) // base ** i) % base for i in range(n))
+                return eqr(eq), "oc-ii-digits"
+            return eqr(False), "oc-ii-tag"
+        if t2 in ("object", "float") and isfloat(b, t2):
+            return float_int(b[1], a[1])
+        return "g", "oc-richcmp"
+    return "g", "oc-richcmp"
+
+
 def fast(P, site, x):
     """(result, path) of the helper that serves the site"""
     fam, op, order, c = site["family"], site["op"], site["order"], site["cv"]
@@ -693,6 +756,8 @@ def fast(P, site, x):
     if fam == "PyNumberBinop":
         tc = "float" if c[0] == "float" else "int"
         return number_binop(P, op, "object", tc, x, c) if order == "ObjC" else number_binop(P, op, tc, "object", c, x)
+    if fam == "PyObjectCompare":
+        return object_compare(P, op, "object", "int", x, c) if order == "ObjC" else object_compare(P, op, "int", "object", c, x)
     return "g", "generic"
 
 
@@ -736,7 +801,10 @@ def render(site, name):
     c = site["c"]
     lit = "(%s)" % c if c.startswith("-") else c
     sym = SYM[site["op"]]
-    arg = "x: int" if site["shape"] == "annint" else "x"
+    arg = "x"
+    if site["shape"] == "pyint":          # a value the compiler knows to be a Python int
+        body = render(dict(site, shape="obj"), name).split("\n", 1)[1].replace("x", "y")
+        return "def %s(x):\n    y = int(x)\n%s" % (name, body)
     expr = "x %s %s" % (sym, lit) if site["order"] == "ObjC" else "%s %s x" % (lit, sym)
     if site["inplace"]:
         return "def %s(%s):\n    x %s= %s\n    return x\n" % (name, arg, sym, lit)
@@ -789,12 +857,12 @@ def real_sites(tier):
         sites.append(make_site(P, "Xor", "CObj", c))
     for c in ann:
         for op in arith + list(CMP):
-            sites.append(make_site(P, op, "ObjC", c, shape="annint"))
+            sites.append(make_site(P, op, "ObjC", c, shape="pyint"))
         for op in ("Add", "Subtract", "Multiply", "And", "Eq"):
-            sites.append(make_site(P, op, "CObj", c, shape="annint"))
+            sites.append(make_site(P, op, "CObj", c, shape="pyint"))
     for c in (1, 31, 62):
-        sites.append(make_site(P, "Lshift", "ObjC", c, shape="annint"))
-        sites.append(make_site(P, "Rshift", "ObjC", c, shape="annint"))
+        sites.append(make_site(P, "Lshift", "ObjC", c, shape="pyint"))
+        sites.append(make_site(P, "Rshift", "ObjC", c, shape="pyint"))
     for i, s in enumerate(sites):
         s["id"] = i
         s["fn"] = "f%d" % i
@@ -818,23 +886,28 @@ def helpers_in_c(c_text, modname):
     """B3: {function name: sorted list of arithmetic/comparison helpers its generated C body calls}"""
     import re
     out = {}
-    pat = re.compile(r"static PyObject \*__pyx_pf_\d+%s_\d*(f\d+)\(.*?\n}\n" % re.escape(modname), re.S)
+    pat = re.compile(r"static PyObject \*__pyx_pf_\d+%s_\d*(f\d+)\([^;{]*\) \{\n.*?\n\}\n" % re.escape(modname), re.S)
     hp = re.compile(r"\b(__Pyx_PyLong_(?:Bool)?[A-Z][A-Za-z]+(?:ObjC|CObj)|__Pyx_PyFloat_(?:Bool)?[A-Z][A-Za-z]+(?:ObjC|CObj)|"
-                    r"__Pyx_PyNumber_\w+|PyNumber_\w+|PyObject_RichCompare\w*|__Pyx_PyObject_RichCompare\w*)\(")
+                    r"__Pyx_PyNumber_\w+|PyNumber_\w+|PyObject_RichCompare\w*|__Pyx_PyObject_RichCompare\w*|__Pyx_PyObject_Compare\w+)\(")
     for m in pat.finditer(c_text):
         out[m.group(1)] = sorted(set(hp.findall(m.group(0))))
     return out
 
 
 def helper_family(names):
+    import re
     fams = set()
     for n in names:
         if n.startswith("__Pyx_PyLong_"):
             fams.add("PyLongCompare" if ("Eq" in n or "Ne" in n) else "PyLongBinop")
         elif n.startswith("__Pyx_PyFloat_"):
             fams.add("PyFloatBinop")
-        elif n.startswith("__Pyx_PyNumber_") and not n.startswith("__Pyx_PyNumber_Divide") and not n.startswith("__Pyx_PyNumber_InPlaceDivide"):
+        elif n.startswith("__Pyx_PyObject_Compare") and not n.endswith("_object_object"):
+            fams.add("PyObjectCompare")
+        elif re.match(r"__Pyx_PyNumber_(InPlace)?(Add|Subtract|Multiply|Xor|And|Or)_[a-z]+_[a-z]+$", n):
             fams.add("PyNumberBinop")
+        elif n in ("__Pyx_PyNumber_Int", "__Pyx_PyNumber_Long", "__Pyx_PyNumber_Float"):
+            pass
         else:
             fams.add("generic")
     return sorted(fams)
@@ -989,3 +1062,86 @@ def py_eval(site, x):
     except BaseException as e:
         return "E:" + type(e).__name__
     return enc_value(r)
+
+
+# --------------------------------------------------------------------------------------------
+# the scaled instance: enumeration identical to spec/PyLongArith.tla (Sites, XSeq) for the cell-by-cell validation
+
+def read_cfg(path):
+    """CONSTANTS of a PyLongArith_*.cfg"""
+    import re
+    vals = {}
+    for line in open(path):
+        m = re.match(r"\s*(\w+)\s*=\s*(.+?)\s*$", line)
+        if not m:
+            continue
+        k, v = m.group(1), m.group(2)
+        if v.startswith("{"):
+            vals[k] = [x.strip().strip('"') for x in v.strip("{}").split(",") if x.strip()]
+            if all(re.match(r"-?\d+$", x) for x in vals[k]):
+                vals[k] = [int(x) for x in vals[k]]
+        elif re.match(r"-?\d+$", v):
+            vals[k] = int(v)
+        else:
+            vals[k] = v
+    return vals
+
+
+def _F(s, n, d):
+    return ("float", ("fin", s, n, d))
+
+
+SPECIALS = [("bool", 0), ("bool", 1), _F(1, 0, 0), _F(-1, 0, 0), _F(1, 1, 0), _F(-1, 1, 0), _F(1, 1, 1), _F(-1, 3, 1),
+            _F(1, 2, 0), _F(1, 3, 0), _F(-1, 5, 1), _F(1, 7, 0), _F(1, 3, 2), _F(1, 8, 0), _F(1, 9, 0), _F(-1, 9, 0), _F(1, 34, 0),
+            _F(1, 64, 0), _F(1, 100, 0), _F(-1, 100, 0), _F(1, 120, 0), _F(1, 1, 4), _F(-1, 1, 5),
+            ("float", ("inf", 1)), ("float", ("inf", -1)), ("float", NAN), ("other", "o")]
+
+
+def parse_const(txt):
+    if txt.startswith("i:"):
+        return ("int", int(txt[2:]))
+    parts = txt.split(":")
+    return ("float", ("fin", 1 if parts[2] == "+" else -1, int(parts[3]), int(parts[4])))
+
+
+def xseq(cfg, chunk):
+    B = cfg["XMAX"]
+    CH = cfg["CH"]
+    nchunks = (2 * B + 1 + CH - 1) // CH
+    if chunk == nchunks:
+        return SPECIALS
+    lo = -B + chunk * CH
+    return [("int", v) for v in range(lo, min(lo + CH - 1, B) + 1)]
+
+
+def validate_rows(cfg, rows):
+    """compare every published cell with the mirror -> (number of cells, list of differences,
+    {family/path: cells}, {family/path: hazard cells})"""
+    P = Params(cfg["SHIFT"], cfg["LONG"], cfg["LLONG"], cfg["CBITS"], cfg["MANT"], cfg["EMAX"])
+    diffs, ncells, paths, hazards = [], 0, {}, {}
+    for r in rows:
+        cv = parse_const(r["c"])
+        fam = select(P, r["op"], r["order"], r["ck"], cv[1], shift_max=P.LLONG - 1)
+        site = {"op": r["op"], "order": r["order"], "ckind": r["ck"], "cv": cv, "family": fam}
+        if fam != r["family"]:
+            diffs.append({"what": "family", "row": {k: r[k] for k in ("op", "order", "ck", "c")}, "spec": r["family"], "mirror": fam})
+            continue
+        xs = xseq(cfg, r["chunk"])
+        if len(xs) != len(r["ref"]):
+            diffs.append({"what": "row length", "row": {k: r[k] for k in ("op", "order", "ck", "c", "chunk")}})
+            continue
+        for x, sr, sf, sp in zip(xs, r["ref"], r["fast"], r["path"]):
+            ncells += 1
+            sf = sr if sf == "=" else sf
+            mr = ref(P, site, x)
+            mf, mp = fast(P, site, x)
+            if mf.startswith("UB:"):
+                mf, mp = "UB", mp + "!" + mf[3:]
+            key = fam + "/" + sp
+            paths[key] = paths.get(key, 0) + 1
+            if sf not in ("g", sr):
+                hazards[key] = hazards.get(key, 0) + 1
+            if (mr, mf, mp) != (sr, sf, sp) and len(diffs) < 50:
+                diffs.append({"what": "cell", "row": {k: r[k] for k in ("op", "order", "ck", "c")}, "x": x,
+                              "spec": [sr, sf, sp], "mirror": [mr, mf, mp]})
+    return ncells, diffs, paths, hazards
